@@ -30,6 +30,10 @@ def flat_conds(conds):
             out.extend(flat_conds(c[1:]))
         elif isinstance(c, tuple) and c and c[0] == "not" and isinstance(c[1], tuple) and c[1] and c[1][0] == "or":
             out.extend(flat_conds([neg(x) for x in c[1][1:]]))
+        elif isinstance(c, tuple) and len(c) == 4 and c[0] == "phi" and c[2] == ("const", False):
+            out.extend(flat_conds([neg(c[1]), c[3]]))        # (False if t else X) holds  ==  not t and X
+        elif isinstance(c, tuple) and len(c) == 4 and c[0] == "phi" and c[3] == ("const", False):
+            out.extend(flat_conds([c[1], c[2]]))
         else:
             out.append(c)
     return out
@@ -360,3 +364,13 @@ def method_calls_on(prog, fi, names, self_cls=None):
                 recv = recv[1]
             out.append((c, recv, tuple(sy.expr(a, env) for a in c.args), guards))
     return out
+
+
+def norm_items(v):
+    """x[<int constant>] and unpacked item i of x are the same thing: ('item', x, i)"""
+    if isinstance(v, tuple):
+        if len(v) == 3 and v[0] == "sub" and isinstance(v[2], tuple) and len(v[2]) == 2 and v[2][0] == "const" \
+                and isinstance(v[2][1], int) and not isinstance(v[2][1], bool):
+            return ("item", norm_items(v[1]), v[2][1])
+        return tuple(norm_items(y) for y in v)
+    return v
